@@ -725,7 +725,8 @@ def _dispatch_rules(repo: Repo, hs) -> List[Rec]:
     detail = "qfallback body not recognised"
     if len(ps) == 1 and ps[0].end[0] == "return":
         expr = ps[0].end[1]
-        txt = U(expr).replace("torch.utils._pytree.", "pytree.")
+        from .core import CanonStr
+        txt = CanonStr(U(expr).replace("torch.utils._pytree.", "pytree."))
         # callable(*mapped[0], **mapped[1]) with mapped = pytree.tree_map_only(QTensor, lambda x: x.dequantize(), (args, kwargs or {}))
         want_map = ("pytree.tree_map_only(QTensor, lambda x: x.dequantize(), (args, kwargs or {}))", "pytree.tree_map_only(QTensor, lambda x: x.dequantize(), (args, kwargs))")
         for wm in want_map:
